@@ -9,7 +9,27 @@
 
 package asetypes
 
+//@ # Fixed wire sizes of the TDS 5.0 data types (written from the TDS 5.0
+//@ # functional specification, independent of bytesize.go / lengthBytes.go).
+//@ pred bytesz(t DataType) { t == BIT ? 1 : t == INT1 ? 1 : t == SINT1 ? 1 : t == INT2 ? 2 : t == UINT2 ? 2 : t == INT4 ? 4 : t == UINT4 ? 4 : t == FLT4 ? 4 : t == DATE ? 4 : t == TIME ? 4 : t == SHORTDATE ? 4 : t == SHORTMONEY ? 4 : t == INT8 ? 8 : t == UINT8 ? 8 : t == FLT8 ? 8 : t == DATETIME ? 8 : t == MONEY ? 8 : t == INTERVAL ? 8 : -1 }
+//@ # Width of the length prefix of variable-length / nullable types.
+//@ pred lenbytes(t DataType) { (t == IMAGE || t == TEXT || t == UNITEXT || t == XML || t == LONGBINARY || t == LONGCHAR) ? 4 : (t == BIGDATETIMEN || t == BIGTIMEN || t == BINARY || t == BOUNDARY || t == CHAR || t == DATEN || t == DATETIMEN || t == DECN || t == FLTN || t == INTN || t == MONEYN || t == NUMN || t == SENSITIVITY || t == TIMEN || t == UINTN || t == VARBINARY || t == VARCHAR) ? 1 : -1 }
+
+//@ func (DataType).ByteSize returns (r)
+//@   modifies
+//@   ensures [table] r == bytesz(t)
+//@ func (DataType).LengthBytes returns (r)
+//@   modifies
+//@   ensures [table] r == lenbytes(t)
+
 //@ # GoValue: the server chooses the length of bs, so there is no length
 //@ # precondition; it only touches memory it allocates itself.
 //@ func (DataType).GoValue returns (v, err)
+//@   requires [nonnil-endian] nonnil(endian)
 //@   modifies
+//@   ensures [decimal-nonnil] err == nil && is(v, *Decimal) ==> payload(v) != 0
+//@ func (DataType).goValue returns (v, err)
+//@   requires [nonnil-endian] nonnil(endian)
+//@   requires [size] bytesz(t) != -1 ==> len(bs) == bytesz(t)
+//@   modifies
+//@   ensures [decimal-nonnil] err == nil && is(v, *Decimal) ==> payload(v) != 0
